@@ -1402,7 +1402,7 @@ func (p *pool) gen(tr *hx.Trace, rng *hx.Rng, thorough bool) {
 		emit("sanity", pr, Mut{Kind: "none"}, 5, via)
 
 		// every base64 field: first / middle / last symbol, seeded positions, and EVERY position on a sample of the
-		// pairs (quick: 4 pairs, thorough: a third)
+		// pairs (quick: 3 pairs, thorough: all)
 		for _, f := range []string{"protected", "iv", "ciphertext", "tag"} {
 			for pos := 0; pos < 3; pos++ {
 				emit("flip", pr, Mut{Kind: "flip", Field: f, Pos: pos}, victim, via)
@@ -1412,7 +1412,7 @@ func (p *pool) gen(tr *hx.Trace, rng *hx.Rng, thorough bool) {
 				emit("flip", pr, Mut{Kind: "flip", Field: f, Pos: 10 + rng.Intn(4000)}, victim, via)
 			}
 
-			if thorough || pi%13 == 5 {
+			if thorough || pi%20 == 5 {
 				lim := map[string]int{"protected": 900, "iv": 32, "ciphertext": 120, "tag": 44}[f]
 				for q := 0; q < lim; q++ {
 					emit("flip-all", pr, Mut{Kind: "flip", Field: f, Pos: 10 + q}, victim, via)
